@@ -275,7 +275,8 @@ def run(rep, facts, tier):
         c = cmp_of(br[0]) if br else None
         if not c:
             continue
-        sa, sb = expr_str(c[1], -12), expr_str(c[2], -12)
+        from ..core import norm_refs as _nr
+        sa, sb = expr_str(_nr(c[1]), -12), expr_str(_nr(c[2]), -12)      # `*&mut *self` chains of a spliced helper read as `*self`
         if not (('data_stack' in sa and 'ds_len' in sb) or ('data_stack' in sb and 'ds_len' in sa)):
             continue
         n_fl += 1
